@@ -481,13 +481,14 @@ func init() {
 				extras := c.Choose("vendor-claims", 17)
 				a := genValidOpt(&choice.Ctx{}, kindP2, false, true)
 				a.Canon, a.Profile = ExtWideName, sp(ExtWideName)
+				a.BootSeed, a.CertRef, a.VSI = bp(pat(32, 0x20)), sp("1234567890123-12345"), sp("https://psa-verifier.org") // all ten base claims
 				x, err := realise(a)
 				if err != nil {
 					return
 				}
 				w := x.(*ExtWideClaims)
 				w.SetExtras(extras)
-				tag := fmt.Sprintf("wide-profile:%d-vendor-claims", extras)
+				tag := fmt.Sprintf("wide-profile:10+%d-claims", extras)
 				c03stats.StateStr(tag)
 				roundTrip(c, tag, w, w, func(y psatoken.IClaims) string {
 					if yw, ok := y.(*ExtWideClaims); !ok || yw.Extras() != w.Extras() {
